@@ -15,6 +15,7 @@ import (
 	"fmt"
 	"github.com/google/go-tdx-guest/verify/trust"
 	"io"
+	"math"
 	"math/big"
 	"net/http"
 	"net/url"
@@ -420,8 +421,13 @@ func TestC10(t *testing.T) {
 					if i%5 == 0 {
 						h.Set("Date", far)
 					}
+					// what the transport reports as the announced length is the server's word too: unknown, right, zero, or absurd
+					cl := []int64{-1, int64(len(body)), 0, 1 << 50, 1 << 62, math.MaxInt64, int64(len(body)) + 1}[i%7]
+					if cl > 0 {
+						h.Set("Content-Length", fmt.Sprint(cl))
+					}
 					http.DefaultTransport = roundTripFunc(func(req *http.Request) (*http.Response, error) {
-						return &http.Response{StatusCode: status, Status: fmt.Sprintf("%d status", status), Header: h, Body: io.NopCloser(strings.NewReader(body)), Request: req, ContentLength: -1}, nil
+						return &http.Response{StatusCode: status, Status: fmt.Sprintf("%d status", status), Header: h, Body: io.NopCloser(strings.NewReader(body)), Request: req, ContentLength: cl}, nil
 					})
 					g := &trust.SimpleHTTPSGetter{}
 					gen.Eval()
@@ -430,7 +436,7 @@ func TestC10(t *testing.T) {
 						return err
 					})
 					if hung || v.Panicked() {
-						gen.Fail(t, gen.Violation{Key: fmt.Sprintf("getter-no-answer:status-%d", status), Oracle: "every entry point returns a result or an error; none panics or hangs", Detail: fmt.Sprintf("trust.SimpleHTTPSGetter.Get against a server answering %d with Retry-After %q and a body of %d bytes: no answer within 45 s %s", status, ra, len(body), v.Panic), Replay: map[string]any{"kind": "c10-http-answer", "status": status, "retry_after": ra}})
+						gen.Fail(t, gen.Violation{Key: fmt.Sprintf("getter-no-answer:status-%d", status), Oracle: "every entry point returns a result or an error; none panics or hangs", Detail: fmt.Sprintf("trust.SimpleHTTPSGetter.Get against a server answering %d with Retry-After %q, an announced length of %d and a body of %d bytes: no answer within 45 s %s", status, ra, cl, len(body), v.Panic), Replay: map[string]any{"kind": "c10-http-answer", "status": status, "retry_after": ra}})
 						return
 					}
 					gen.NonTrivial("c10http", status, ra, len(body))
